@@ -138,6 +138,11 @@ func BuildTx(kr *Keyring, s TxSpec, prior Prior) (f TxFacts) {
 		f.Hash = hex.EncodeToString(tmtypes.Tx(f.Bytes).Hash())
 		return
 	}
+	if s.MemoHex != "" {
+		if b, err := hex.DecodeString(s.MemoHex); err == nil {
+			s.Memo = string(b)
+		}
+	}
 	msg := BuildMsg(kr, s)
 	if msg == nil {
 		f.Bytes = []byte("unknown-kind")
@@ -183,6 +188,13 @@ func BuildTx(kr *Keyring, s TxSpec, prior Prior) (f TxFacts) {
 	if chain == "" {
 		chain = ChainID
 	}
+	if s.Mut == "strbyte" {
+		// the signer approves a text field that ends in a byte which is not valid UTF-8 ...
+		msg = withTextSuffix(msg, "\xff")
+		if !hasTextField(msg) {
+			s.Memo += "\xff"
+		}
+	}
 	signBytes, err := auth.StdSignBytes(chain, s.Entropy, fee, msg, s.Memo)
 	if err != nil {
 		panic(err)
@@ -216,6 +228,23 @@ func BuildTx(kr *Keyring, s TxSpec, prior Prior) (f TxFacts) {
 	case s.Mut == "memosp":
 		// only white space is added to the signed note (before it if there is a note, alone otherwise)
 		tx.Memo = " " + tx.Memo + "\t"
+		honest = false
+	case s.Mut == "membyte":
+		// one bit of the last byte of the signed note changes (an empty note gets one byte)
+		if b := []byte(tx.Memo); len(b) > 0 {
+			b[len(b)-1] ^= 1
+			tx.Memo = string(b)
+		} else {
+			tx.Memo = "n"
+		}
+		honest = false
+	case s.Mut == "strbyte":
+		// ... and the transaction carries another such byte there
+		if hasTextField(tx.Msg) {
+			tx.Msg = withTextSuffix(BuildMsg(kr, s), "\xfe")
+		} else {
+			tx.Memo = tx.Memo[:len(tx.Memo)-1] + "\xfe"
+		}
 		honest = false
 	case s.Mut == "entropy":
 		tx.Entropy++
@@ -308,6 +337,27 @@ func flipS(sig []byte) []byte {
 	}
 	copy(out[64-len(b):], b)
 	return out
+}
+
+// hasTextField / withTextSuffix: the free-text fields of the bundled messages (what JSON sign bytes could blur).
+func hasTextField(msg sdk.Msg) bool {
+	switch msg.(type) {
+	case govTypes.MsgChangeParam, govTypes.MsgUpgrade:
+		return true
+	}
+	return false
+}
+
+func withTextSuffix(msg sdk.Msg, suf string) sdk.Msg {
+	switch m := msg.(type) {
+	case govTypes.MsgChangeParam:
+		m.ParamKey += suf
+		return m
+	case govTypes.MsgUpgrade:
+		m.Upgrade.Version += suf
+		return m
+	}
+	return msg
 }
 
 func mutateMsg(kr *Keyring, s TxSpec, msg sdk.Msg) sdk.Msg {
